@@ -342,7 +342,7 @@ for _p in ["C01", "C02", "C03", "C05", "C06", "C07", "C11", "C12", "C14", "C17"]
 
 MANIFEST_TEXT = {
     "C01": dict(
-        text="seeded histories over every public operation of xbasic_fixed_string in all three storage layouts, both error policies, char and char16_t, compared step by step (returned values and full observable state, through every access path) with std::basic_string; objects live in dirty, red-zoned simulator memory; stream operations run on simulated streambufs with injected short reads, early EOF, read errors and a sink that fills up",
+        text="seeded histories over every public operation of xbasic_fixed_string in all three storage layouts, both error policies, char, char16_t, wchar_t and char32_t, with arguments that alias the target (the string itself, pointers into it) and ranges of genuinely single-pass input iterators, compared step by step (returned values and full observable state, through every access path) with std::basic_string; objects live in dirty, red-zoned simulator memory; stream operations run on simulated streambufs with injected short reads, early EOF, read errors and a sink that fills up",
         design_ref="4.1",
         note="sampled histories, not a proof; std::basic_string is the specification; documented deviations (resize padding, NUL-truncating paths, silent-policy preconditions) are modelled rather than compared",
         technique="deterministic simulation: seeded operation histories against an executable reference model, stream fault injection, dirty-memory placement",
@@ -354,33 +354,33 @@ MANIFEST_TEXT = {
         technique="deterministic simulation with fault injection: rejected operations as crash points, failure-atomicity oracle, red-zone containment",
     ),
     "C03": dict(
-        text="seeded histories over every operation of xdynamic_bitset (4 block types, std and custom allocator) and xdynamic_bitset_view (over dirty caller memory with guard blocks, also written by an owner actor), compared after every step with std::vector<bool> through every access path including the raw blocks (unused bits zero), with at(i) required to throw exactly for i >= size()",
+        text="seeded histories over every operation of xdynamic_bitset (4 block types, std and custom allocator) and xdynamic_bitset_view (over dirty caller memory with guard blocks, also written by an owner actor), compared after every step with std::vector<bool> through every access path including the raw blocks (unused bits zero), with at(i) required to throw exactly for i >= size(); shifts are also run over more than 2^w blocks, and after an injected allocation failure in resize/push_back/reserve/assign the bitset must still be canonical",
         design_ref="4.3",
-        note="sampled histories; allocation failures are injected but only object usability is required after them because the property does not mention them",
+        note="sampled histories; after an injected allocation failure the invariants the property states without exception (unused bits zero, block_count, count) are required, the value (old or new) is not; after a failed member-wise copy assignment only usability",
         technique="deterministic simulation: seeded operation histories with several handles on shared memory against a reference model, allocator fault injection, dirty caller memory",
     ),
     "C05": dict(
-        text="fault enumeration inside seeded histories: every sampled history over three variants with trivial, nothrow-movable, throwing-copy and throwing-move alternatives is executed fault-free and then once for every (step, k) with a throw injected at the k-th constructor/assignment reached in that step; a lifetime registry checks construct-once/destroy-once/no-use-after-destruction, every observer must agree with the model, results without a throw are std::variant's, results after a throw satisfy the property's disjunction (valueless, pre-call value, or requested value)",
+        text="fault enumeration inside seeded histories: every sampled history over three variants with trivial, nothrow-movable, throwing-copy and throwing-move alternatives (plus two further alternative sets: defaulted-assignment alternatives with registered lifetimes, and all-trivially-destructible alternatives with throwing constructors and NaN doubles) is executed fault-free and then once for every (step, k) with a throw injected at the k-th constructor/assignment reached in that step; a lifetime registry checks construct-once/destroy-once/no-use-after-destruction, every observer must agree with the model, results without a throw are std::variant's, results after a throw satisfy the property's disjunction (valueless, pre-call value, or requested value)",
         design_ref="4.4",
         note="histories are sampled, fault positions inside each sampled history are enumerated; the table-based visitation path does not exist on this toolchain",
         technique="deterministic simulation with fault injection: injected throws at enumerated fault points, lifetime registry, reference model of std::variant semantics",
     ),
     "C06": dict(
-        text="fault enumeration inside seeded histories over three xtl::any objects and eight payload types on both sides of the in-place/heap threshold: each sampled history runs fault-free and then once per (step, k) with the k-th payload copy/move throwing or the k-th allocation failing; a lifetime registry checks construct-once/destroy-once/no-use-after-destruction, has_value/type/any_cast for every type must agree with the model after every step, a failed copy or value assignment must leave the target's previous value, copies must be independent, casts succeed only for exactly the stored type",
+        text="fault enumeration inside seeded histories over three xtl::any objects and ten payload types on both sides of the in-place/heap threshold (among them a reference-like type whose assignment writes through to caller cells, and a type with an extra T(T&) constructor): each sampled history runs fault-free and then once per (step, k) with the k-th payload copy/move throwing or the k-th allocation failing; a lifetime registry checks construct-once/destroy-once/no-use-after-destruction, has_value/type/any_cast for every type must agree with the model after every step, a failed copy or value assignment must leave the target's previous value, copies must be independent, casts succeed only for exactly the stored type",
         design_ref="4.5",
         note="histories are sampled, fault positions inside each sampled history are enumerated; global operator new is replaced in the harness binary",
         technique="deterministic simulation with fault injection: injected throws and allocation failures at enumerated fault points, lifetime registry, reference model",
     ),
     "C07": dict(
-        text="dynamic half only: seeded histories in which wrappers of every kind are built from lvalues and from temporaries whose lifetime the simulator ends, then written through, copied, assigned, swapped and addressed while an owner actor writes the referents behind them; aliasing (same address, no copy, write-through both ways, no rebinding) and ownership (independent value that survives the temporary) are checked after every step through every accessor form",
+        text="dynamic half only: seeded histories in which wrappers of every kind are built from lvalues and from temporaries whose lifetime the simulator ends, then written through, copied, assigned, swapped and addressed while an owner actor writes the referents behind them; aliasing (same address, no copy, write-through both ways, no rebinding) and ownership (independent value that survives the temporary) are checked after every step through every accessor form - member and free, lvalue, const and rvalue, the rvalue forms on a temporary wrapper that is destroyed before the result is read - for same-kind and mixed-kind closures, including construction/assignment between owning optionals and reference proxies and forward_sequence in every cv/ref form",
         design_ref="4.6",
         note="the compile-time half (trait table over all cv/ref combinations, move-only payloads) is outside this technique and only evaluated as a model precondition",
         technique="deterministic simulation: seeded multi-actor aliasing/ownership histories, injected end of lifetime of source temporaries, copy-counting payloads",
     ),
     "C11": dict(
-        text="seeded histories over the four parallel-storage containers (vector and array variants of xoptional_* and xcomplex_*), placed in dirty memory, driven by an owner, an element-proxy actor and a storage actor; after every step both storages must have size() elements and every element must read as the pair of its two storage slots through operator[], at, front, back, forward, const and reverse iterators and operator->, with writes landing in exactly that pair",
+        text="seeded histories over the four parallel-storage containers (vector and array variants of xoptional_* and xcomplex_*), placed in dirty memory, driven by an owner, an element-proxy actor and a storage actor; after every step both storages must have size() elements and every element must read as the pair of its two storage slots through operator[], at, front, back, forward, const and reverse iterators and operator->, with writes landing in exactly that pair; one configuration family injects throws of the element type into constructors and resize and requires the storages to stay as long as size()",
         design_ref="4.7",
-        note="sampled histories; dirty-memory placement is the fault that makes forgotten initialisation deterministic; no allocation faults",
+        note="sampled histories; dirty-memory placement is the fault that makes forgotten initialisation deterministic; element-constructor throws in one configuration family; no allocation faults",
         technique="deterministic simulation: seeded multi-actor histories against a reference model, dirty-memory placement",
     ),
     "C12": dict(
@@ -396,9 +396,9 @@ MANIFEST_TEXT = {
         technique="deterministic simulation: hash invariants over seeded histories, placement/alignment/stale-byte variation, independent reference implementation",
     ),
     "C17": dict(
-        text="seeded registration/erasure/dispatch histories against every dispatcher kind (map and fast functor dispatchers with 1-3 arguments and both casting policies, static dispatcher symmetric and antisymmetric, acyclic and cyclic visitors), with recording handlers: a dispatch must run exactly the handler the model holds for the tuple of dynamic types with the caller's own objects in registered order and the extra argument itself, or report an error and run nothing",
+        text="seeded registration/erasure/dispatch histories against every dispatcher kind (map and fast functor dispatchers with 1-3 arguments and both casting policies, static dispatcher symmetric and antisymmetric, acyclic and cyclic visitors), with recording handlers: a dispatch must run exactly the handler the model holds for the tuple of dynamic types with the caller's own objects in registered order and the extra argument itself, or report an error and run nothing; registrations of the functor dispatchers also meet injected allocation failures, after which only the previous or the attempted handler (or an error if there was none) may answer for that tuple",
         design_ref="4.10",
-        note="sampled histories over a four-class hierarchy; the fault dimension is the error path (lookups that must fail) and the lazily assigned process-global class indices",
+        note="sampled histories over a four-class hierarchy; the fault dimension is the error path (lookups that must fail), allocation failure inside registrations, and the lazily assigned process-global class indices",
         technique="deterministic simulation: seeded registration/lookup histories against a reference map, error-path injection, reset of process-global state per run",
     ),
     "C20": dict(
